@@ -330,6 +330,8 @@ struct Stats {
     known_hits: BTreeMap<String, (String, u64)>,
     discard_reasons: BTreeMap<String, u64>,
     maxima: BTreeMap<String, f64>,
+    /// the case that produced each maximum (written to the evidence so a bound's margin can be inspected)
+    argmax: BTreeMap<String, Value>,
 }
 
 impl Stats {
@@ -360,10 +362,14 @@ impl Stats {
         for (k, v) in o.discard_reasons {
             *self.discard_reasons.entry(k).or_default() += v;
         }
+        let mut oa = o.argmax;
         for (k, v) in o.maxima {
-            let e = self.maxima.entry(k).or_insert(f64::NEG_INFINITY);
+            let e = self.maxima.entry(k.clone()).or_insert(f64::NEG_INFINITY);
             if v > *e {
                 *e = v;
+                if let Some(c) = oa.remove(&k) {
+                    self.argmax.insert(k, c);
+                }
             }
         }
     }
@@ -453,6 +459,7 @@ fn record<C: Serialize>(st: &mut Stats, case: &C, out: &Outcome, generated: bool
                     let e = st.maxima.entry(k.clone()).or_insert(f64::NEG_INFINITY);
                     if x > *e {
                         *e = x;
+                        st.argmax.insert(k.clone(), serde_json::to_value(case).unwrap_or(Value::Null));
                     }
                 }
             }
@@ -828,6 +835,7 @@ fn write_evidence<C>(spec: &Spec<C>, opts: &Opts, st: &Stats, t0: Instant, viola
         "discard_reasons": st.discard_reasons,
         "excluded_known": st.excluded_known,
         "max_observed_ratios": st.maxima,
+        "max_observed_ratio_cases": st.argmax,
         "exhaustive": spec.exhaustive_only,
     });
     if let Some(e) = &spec.exhaustive {
